@@ -12,7 +12,8 @@ PROPS = ["C01", "C02", "C05"]
 from vlib import read_ndjson, Infra
 
 FAMILY = {"C01": "V", "C02": "S", "C05": "P"}
-CHUNK = 1500          # trace lines per TLC run
+CHUNK = 1500          # (quick; thorough uses 4x)
+XCHUNK = 6000          # trace lines per TLC run
 
 
 SLICE_K = 151
@@ -65,7 +66,7 @@ def validate_trace(ctx, d, pid, events):
     chunks, cur = [], []
     for e in events:
         # a Tamper event stays with its Val event
-        if len(cur) >= CHUNK and e["ev"] != "Tamper":
+        if len(cur) >= (CHUNK if ctx.tier == "quick" else XCHUNK) and e["ev"] != "Tamper":
             chunks.append(cur)
             cur = []
         cur.append(e)
@@ -122,7 +123,7 @@ def validate_trace(ctx, d, pid, events):
         for ctxev in viol:
             if len(ctx.violations) < 12:
                 ctx.violation(describe(pid, ctxev[-1]),
-                              {"events": ctxev, "seed": ctx.seed,
+                              {"events": ctxev, "seed": ctx.seed, "gbits": ctx.cov.get("gbits"),
                                "how": "VERIF_SEED=%d python3 tools/vcheck.py %s --tier %s" % (ctx.seed, pid, ctx.tier)})
     if not ctx.mismatches:
         ctx.log("E2 full conformance: %d events in %d chunks accepted" % (len(events), len(chunks)))
@@ -186,6 +187,7 @@ def harness(ctx, pid, cases, extra):
     trace = os.path.join(ctx.scratch, "trace-%s.ndjson" % pid)
     obj = {"mode": pid, "cases": cases}
     obj.update(extra)
+    ctx.cov["gbits"] = extra.get("gbits")
     with open(path, "w") as fh:
         json.dump(obj, fh)
     ctx.go_harness("storage", "^TestVerifValidate$", env={"VERIF_CASES": path, "VERIF_TRACE": trace}, timeout=1500)
@@ -252,7 +254,7 @@ def run_C01(ctx, args):
     ctx.samples = [short(e) for e in vals[:3]]
     ctx.traces = validate_trace(ctx, d, "C01", events)
     ctx.assumptions += [
-        "amount classes: 0, 1, 2, 3, near the Bitcoin capacity, huge (2^200..2^250, present in the ledger), giant (2^k-1, k<=2040 by seed)",
+        "amount classes: 0, 1, 2, 3, near the Bitcoin capacity, huge (2^180..2^219, present in the ledger), giant (2^k-1, k<=2040 by seed)",
         "two ledgers (with and without a pending pledge) built by real finalizations from a generated genesis; not every reachable ledger",
     ]
 
@@ -283,5 +285,23 @@ def run_C05(ctx, args):
     ]
 
 
+def replay(ctx, args):
+    """Re-run the recorded failing execution of a replay file on the current tree and judge it again."""
+    with open(args.replay) as fh:
+        rp = json.load(fh)
+    ctx.seed = rp.get("seed", ctx.seed)
+    evs = rp["replay"]["events"]
+    cases = [e["c"] for e in evs if e.get("ev") == "Val"]
+    extra = {"tamper": any(e["ev"] == "Tamper" for e in evs), "gbits": rp["replay"].get("gbits", 2040),
+             "batches": [{"kinds": e["kinds"]} for e in evs if e["ev"] == "Batch"],
+             "rawhex": [e["hex"] for e in evs if e["ev"] == "Raw" and "hex" in e]}
+    d = ctx.specdir("Validate")
+    events = harness(ctx, ctx.pid, cases, extra)
+    ctx.evaluations = len(events)
+    ctx.traces = validate_trace(ctx, d, ctx.pid, events)
+
+
 def run(ctx, args):
+    if getattr(args, "replay", None):
+        return replay(ctx, args)
     return {"C01": run_C01, "C02": run_C02, "C05": run_C05}[ctx.pid](ctx, args)
